@@ -368,6 +368,9 @@ def write_evidence(ctx, coq_info, coverage, assumptions=None, checker_cmd=None):
         cov.setdefault("print_assumptions", {k: " ".join(v) for k, v in coq_info.get("assumptions", {}).items()})
         cov.setdefault("coq_files_in_cone", coq_info.get("files", []))
     cov.setdefault("known_findings_reconfirmed", ctx.known)
+    if "exhaustive" in cov and not isinstance(cov["exhaustive"], bool):
+        cov["exhaustive_detail"] = cov["exhaustive"]
+        cov["exhaustive"] = False
     ev = {
         "property_id": ctx.prop,
         "tier": ctx.tier,
